@@ -102,6 +102,15 @@ func (sc *RangeScanner) Scan() bool {
 	// We now need to scan over our token to count the grapheme clusters
 	// so we can correctly advance Column, and count the newlines so we
 	// can correctly advance Line.
+	// The SplitFunc may also skip bytes before the token (bufio.ScanWords
+	// skips leading white space), in which case the token starts later.
+	skip := 0
+	if len(token) > 0 {
+		if i := bytes.Index(adv, token); i > 0 {
+			skip = i
+		}
+	}
+
 	advR := bytes.NewReader(adv)
 	gsc := bufio.NewScanner(advR)
 	advanced := 0
@@ -119,7 +128,11 @@ func (sc *RangeScanner) Scan() bool {
 			new.Line++
 		}
 
-		if advanced < len(token) {
+		if advanced < skip {
+			// Still within the bytes skipped before the token.
+			start = new
+			end = new
+		} else if advanced < skip+len(token) {
 			// If we've not yet found the end of our token then we'll
 			// also push our "end" marker along.
 			// (if advance > len(token) then we'll stop moving "end" early
